@@ -200,3 +200,21 @@ Qed.
    open) the monitor holds iff the nonces drawn were all different — the crypto/rand assumption *)
 Lemma judge_fresh_model n d : judge_fresh n d d None true = if d =? n then 0 else 2.
 Proof. unfold judge_fresh. rewrite N.eqb_refl. cbn. destruct (d =? n); reflexivity. Qed.
+
+(* big values and open-mutate-reopen: the model predicts "round trip" whatever the size (roundtrip,
+   load_session_roundtrip are unbounded) and, opening being a function of key and string, the same value on
+   every opening; on exactly these predictions the monitors hold *)
+Lemma judge_round_model st st2 :
+  (st = 0 \/ st = 1) -> (st2 = 0 \/ st2 = 1) -> judge_round 1 st st2 = 0.
+Proof. intros [->| ->] [->| ->]; reflexivity. Qed.
+
+Lemma judge_reopen_model : judge_reopen 11 11 0 = 0.
+Proof. reflexivity. Qed.
+
+Lemma judge_reopen_sound first again bad :
+  judge_reopen first again bad = 0 -> first = 11 /\ again = first /\ bad = 0.
+Proof.
+  unfold judge_reopen, code. destruct ((first =? 11) && (again =? 11) && (bad =? 0)) eqn:E; [|discriminate].
+  intros _. apply andb_true_iff in E as [E E3]. apply andb_true_iff in E as [E1 E2].
+  apply N.eqb_eq in E1, E2, E3. subst. auto.
+Qed.
